@@ -397,20 +397,12 @@ def run_fault(case, site, code, persistent):
             if now != was:
                 if now is not None:
                     probs.append(("earlier-binding-replaced", {"before": was, "after": now}))
-                elif was is not None and named is not None and was != named:
-                    # the failed call named ANOTHER object: undoing it cannot involve the binding the pid already had.
-                    # ('unbound and can be stored again' describes the binding the call tried to create; the binding to
-                    # something else is the 'earlier binding' that must be intact)
-                    probs.append(("earlier-binding-to-another-object-lost", {"before": was, "named_by_failed_call": named}))
-                else:
-                    fresh = case.open(case.rundir)
-                    env2 = case.world("run", fresh)
-                    env2._paths = dict(case._paths)
-                    r, _e = env2.execute(_st(subject, case.call.get("content") or case.call["cid"][1]))
-                    if not r.ok:
-                        probs.append(("earlier-binding-lost-and-retry-refused", {"retry": r.brief(), "msg": r.msg}))
-                    else:
-                        probs.append(("note:earlier-binding-dropped-by-failed-call", {}))
+                elif was is not None:
+                    # the pid was bound before the call and the fault-free call is rejected: nothing this call does can
+                    # create a binding, so 'its earlier binding is intact' is the alternative of the statement that
+                    # applies ('unbound and can be stored again' describes a pid the call was in the middle of binding)
+                    probs.append(("earlier-binding-lost" if (named is None or was == named) else "earlier-binding-to-another-object-lost",
+                                  {"before": was, "named_by_failed_call": named}))
         if kind == "smeta":
             fresh = case.open(case.rundir)
             f = case.call.get("fmt")
